@@ -5,9 +5,9 @@ import "verif/txpipe"
 
 func main() {
 	txpipe.Main(txpipe.CheckDef{
-		ID:      "C16",
-		Groups:  []string{"merge", "idx"},
-		Oracles: txpipe.Oracles{MergePersist: true},
+		ID:         "C16",
+		Groups:     []string{"merge", "idx"},
+		Oracles:    txpipe.Oracles{MergePersist: true},
 		QuickBound: 1, ThoroughBound: 2,
 		Rule: "Oracle: the real merger, merge list batching, merge workers, persist workers, persist ticker and forced persists run concurrently with committers; every published state (after commit, merge or persist) must equal the reference model after a prefix of the commits, with Info row/size bookkeeping (btree + layer deltas) consistent; after the final persist everything is merged, the database's own full check passes and the content equals the model.",
 	})
